@@ -195,7 +195,14 @@ impl Script for C06Script {
         let Some(m) = rq.marker else {
             return Reply::Default;
         };
-        let outcome = draw_outcome(self.success_weight, self.rst);
+        // Half of the requests are "sticky": every attempt gets the outcome of the
+        // first one, so that one-shot retry rules are exercised past their budget.
+        let sticky = m / 16 % 2 == 1;
+        let previous = self.frames.get(&m).and_then(|f| f.first()).map(|f| f.outcome.clone());
+        let outcome = match (sticky, previous) {
+            (true, Some(o)) if o != AttemptOutcome::Success => o,
+            _ => draw_outcome(self.success_weight, self.rst),
+        };
         self.frames.entry(m).or_default().push(FrameSeen {
             node: rq.node,
             consistency: cl,
